@@ -244,28 +244,35 @@ def numsOk : Script → Prop
   | .htlcReceived _ _ _ _ _ _ cltv => 0 ≤ cltv ∧ cltv < 2 ^ 31
   | _ => True
 
-/-- the anchor key and the two funding keys are keys the environment knows (`keyBytes` is only assumed injective on
-    those: no function from all of `Nat` into 33 bytes is) -/
+/-- every key of the script (and, for an anchor, the two funding keys) is a key the environment knows: the key parser
+    is only assumed to invert `keyBytes` on those (no function from all of `Nat` into 33 bytes is injective) -/
 def keysKnown (env : BEnv) (k : Keys) : Script → Prop
+  | .toLocal rev _ delayed => rev < env.nKeys ∧ delayed < env.nKeys
   | .anchor key => key < env.nKeys ∧ k.bFunding < env.nKeys ∧ k.cFunding < env.nKeys
+  | .toRemoteDelayed key => key < env.nKeys
   | _ => True
 
-/-- The `handle_*_output` function that follows a successful parse, state-independent part (`keyOk` =
-    `PublicKey::from_slice` succeeds; the singularity tests are `Info.apply`).  Constants from the source
-    (`Gen.Bolt3`), checks in the source's order. -/
-def handleParsed (keyOk : Bytes → Bool) (bFunding cFunding : Bytes) (value : Nat) : Parsed → Option Role
+/-- The `handle_*_output` function that follows a successful parse, state-independent part (the singularity tests
+    are `Info.apply`).  `parseKey` = `PublicKey::from_slice` (`none`: "malformed"); keys are compared *after*
+    parsing, as the code compares `PublicKey`s (two encodings of one point are the same key).  Constants from the
+    source (`Gen.Bolt3`), checks in the source's order. -/
+def handleParsed {K : Type} [DecidableEq K] (parseKey : Bytes → Option K) (bFunding cFunding : K) (value : Nat) :
+    Parsed → Option Role
   | .toBroadcaster rev delay delayed =>
     if delay < 0 then none else if delay > Gen.Bolt3.maxDelay then none
-    else if !keyOk delayed then none else if !keyOk rev then none else some (.toBc value)
+    else if (parseKey delayed).isNone then none else if (parseKey rev).isNone then none else some (.toBc value)
   | .received _ _ payHash _ cltv =>
     if payHash.length ≠ Gen.Bolt3.paymentHashHashLen then none else if cltv < 0 then none else some .received
   | .offered _ _ _ payHash =>
     if payHash.length ≠ Gen.Bolt3.paymentHashHashLen then none else some .offered
   | .anchor key =>
-    if !keyOk key then none else if value ≠ Gen.Bolt3.anchorSat then none
-    else if key = bFunding then some .anchorB else if key = cFunding then some .anchorC else none
+    match parseKey key with
+    | none => none
+    | some pk =>
+      if value ≠ Gen.Bolt3.anchorSat then none
+      else if pk = bFunding then some .anchorB else if pk = cFunding then some .anchorC else none
   | .toCountersignerDelayed key =>
-    if !keyOk key then none else some (.toCs value)
+    if (parseKey key).isNone then none else some (.toCs value)
 
 /-! ## `impl Ord for HTLCInfo2` (the order `CommitmentInfo2::new` sorts by) -/
 
